@@ -51,8 +51,51 @@ def scrub_trace(t):
     return out
 
 
+class CodeTimeout(Exception):
+    """A single call into the code under test did not return (see install_watchdog)."""
+
+
+_watch = dict(frame=None, n=0, fired=0)
+
+
+def install_watchdog(tick=15.0, first=12, second=4):
+    """Non-termination guard.  A periodic timer looks at the main thread's stack; when the SAME call from the harness
+    into kyupy (identified by its outermost kyupy frame object, kept referenced so that it cannot be recycled) is still
+    running after `first` ticks (180 s; 60 s for the second, 15 s for every later occurrence in one run) CodeTimeout is
+    raised inside that call.  Drivers record it like any other exception of the code under test, and the NoException
+    verdict reports it.  Calls made from worker threads and waiting for TLC are never interrupted."""
+    import signal
+    import threading
+    if threading.current_thread() is not threading.main_thread() or _watch.get('installed'):
+        return
+    marker = os.sep + os.path.join('src', 'kyupy') + os.sep
+
+    def handler(sig, frm):
+        entry, f = None, frm
+        while f is not None:
+            if marker in f.f_code.co_filename:
+                entry = f
+            f = f.f_back
+        if entry is None:
+            _watch.update(frame=None, n=0)
+            return
+        if _watch['frame'] is entry:
+            _watch['n'] += 1
+        else:
+            _watch.update(frame=entry, n=1)
+        limit = first if _watch['fired'] == 0 else second if _watch['fired'] == 1 else 1
+        if _watch['n'] >= limit:
+            secs = int(_watch['n'] * tick)
+            _watch.update(frame=None, n=0, fired=_watch['fired'] + 1)
+            raise CodeTimeout('a call into kyupy (%s) did not return within %d s' % (entry.f_code.co_name, secs))
+    signal.signal(signal.SIGALRM, handler)
+    signal.setitimer(signal.ITIMER_REAL, tick, tick)
+    _watch['installed'] = True
+
+
 def import_kyupy():
     """Import kyupy from the current working tree of the repository (never a stale copy)."""
+    install_watchdog()
     src = os.path.join(REPO, 'src')
     if src not in sys.path:
         sys.path.insert(0, src)
